@@ -23,7 +23,7 @@ MANIFEST = {
     "technique": "Lean 4 proof (induction/invariants over an executable model) + differential correspondence with the real code",
 }
 
-REQUIRED = ["KV.C02.state_sufficient", "KV.C02.state_bounds", "KV.C02.fullScore_congr", "KV.C02.equal_states_equal_backoffs",
+REQUIRED = ["KV.C02.state_sufficient", "KV.C02.state_canonical", "KV.C02.state_bounds", "KV.C02.fullScore_congr", "KV.C02.equal_states_equal_backoffs",
             "KV.C02.compare_trichotomy", "KV.C02.compare_sign", "KV.C02.eq_hash", "KV.C02.eq_ignores_garbage",
             "KV.C02.left_trichotomy", "KV.C02.left_eq_hash", "KV.C02.chart_eq_hash", "KV.C02.left_eq_hash_failed_before_fix"]
 
